@@ -20,6 +20,7 @@ var (
 	ErrBackend  = errors.New("simfs: storage backend unavailable")
 	ErrWrapsEOF = fmt.Errorf("simfs: stream reset by peer: %w", io.EOF)
 	ErrDeadline = deadlineErr{}
+	ErrStale    = errors.New("stale file handle")
 )
 
 type Fault struct {
@@ -77,7 +78,7 @@ func (f *FS) Open(name string) (fs.File, error) {
 	}
 	nth := f.OpenCount[name]
 	readErrAt, eof, once, wrap, temp := -1, false, false, false, false
-	zeroAt := -1
+	zeroAt, statErr := -1, false
 	for _, ft := range f.Faults {
 		if ft.File != name || (ft.Nth != 0 && ft.Nth != nth) {
 			continue
@@ -117,6 +118,8 @@ func (f *FS) Open(name string) (fs.File, error) {
 			readErrAt, eof = ft.At, true
 		case "zeroread":
 			zeroAt = ft.At
+		case "staterr":
+			statErr = true // the file opens and reads; asking about it fails (a stale handle, an I/O error on the inode)
 		}
 	}
 	data, ok := f.Files[name]
@@ -129,7 +132,7 @@ func (f *FS) Open(name string) (fs.File, error) {
 	if f.Nest > f.MaxNest {
 		f.MaxNest = f.Nest
 	}
-	return &file{fs: f, name: name, data: data, errAt: readErrAt, eofOnly: eof, once: once, wrap: wrap, temp: temp, zeroAt: zeroAt}, nil
+	return &file{fs: f, name: name, data: data, errAt: readErrAt, eofOnly: eof, once: once, wrap: wrap, temp: temp, zeroAt: zeroAt, statErr: statErr}, nil
 }
 
 type file struct {
@@ -146,9 +149,16 @@ type file struct {
 	wrap    bool // the read error wraps io.EOF
 	temp    bool // the read error is a timeout that says it is temporary
 	zeroAt  int  // >= 0: the first Read issued at or beyond this offset returns 0, nil
+	statErr bool // Stat fails
 }
 
-func (x *file) Stat() (fs.FileInfo, error) { return info{x.name, int64(len(x.data)), x.dir}, nil }
+func (x *file) Stat() (fs.FileInfo, error) {
+	if x.statErr {
+		x.fs.Fired["stat_error"]++
+		return nil, &fs.PathError{Op: "stat", Path: x.name, Err: ErrStale}
+	}
+	return info{x.name, int64(len(x.data)), x.dir}, nil
+}
 
 func (x *file) Read(p []byte) (int, error) {
 	f := x.fs
